@@ -21,6 +21,14 @@ def run(res, replay=None):
     specs = [replay['replay']['case']['spec']] if replay else \
         [gen.rand_spec(rng, n_total=rng.choice([2, 3, 4, 4, 5]), n_demes=rng.choice([1, 1, 2]), n_epochs=rng.choice([1, 2, 3]))
          for _ in range(ncase)]
+    if not replay:
+        # designed: multiple-merger models with n = 6, 7 in one deme (mergers that draw from two block classes while a third one
+        # is occupied first occur at n = 6)
+        for n_, mdl in ((6, {'kind': 'dirac', 'psi': 0.375, 'c': 1.0, 'scale_time': False}), (7, {'kind': 'beta', 'alpha': 1.5, 'scale_time': False}),
+                        (7, {'kind': 'dirac', 'psi': 0.625, 'c': 2.0, 'scale_time': True}))[: (2 if res.tier == 'quick' else 3)]:
+            specs.append({'n_items': [['a', n_]], 'model': mdl, 'pop_sizes': {'a': {'0.0': rng.choice([0.5, 1.0, 2.0])}}, 'end_time': 3.0})
+    # structural tie of phasegen/coalescent_models.py (the block-counting rates feed every identity between the two representations)
+    import translate_step; (res.proof is not None) and translate_step.run(res.proof, pid=res.pid, tie='coalescent_models')
     orc.run_oracle(res, 'identities', [{'spec': s, 'second_order_reads': ['cov', 'corr_first', 'touch'][i % 3]} for i, s in enumerate(specs)])
     space.run_stream(res, 'C11', specs[: (5 if res.tier == 'quick' else 30)])
     res.extra['input_distribution'] = {'n': sorted(gen.effective_n(s) for s in specs)}
